@@ -69,7 +69,7 @@ def gen_stop(rng, tag, idx):
     if kind == "test_interrupt":
         ptag = f"{tag}t{idx}"
         defs, main = gen_prog(r.fork("stopprog"), size=r.randint(4, 10), tag=ptag)
-        return defs, f"test stopt{tag}{idx} {{ {' '.join(main)} }}", {"at": r.randint(1, 120), "kind": "interrupt"}, "interrupt/test"
+        return defs, f"test stopt{tag}{idx} {{ {' '.join(main)} }}", {"at": r.randint(1, 120), "kind": r.choice(["interrupt", "mid"])}, "interrupt/test"
     if kind == "error":
         site_list = sites.all_sites()
         key, imports, expr = r.choice(site_list)
@@ -89,8 +89,8 @@ def gen_stop(rng, tag, idx):
     name = f"stop{tag}{idx}"
     if r.chance(0.6):
         defs += f"\nfun {name}() {{ {' '.join(main)} }}"
-        return defs, f"{name}()", {"at": r.randint(1, 120), "kind": "interrupt"}, "interrupt/fun"
-    return defs, "if True { " + " ".join(main) + " } else { 0 }", {"at": r.randint(1, 120), "kind": "interrupt"}, "interrupt/block"
+        return defs, f"{name}()", {"at": r.randint(1, 120), "kind": r.choice(["interrupt", "mid"])}, "interrupt/fun"
+    return defs, "if True { " + " ".join(main) + " } else { 0 }", {"at": r.randint(1, 120), "kind": r.choice(["interrupt", "mid"])}, "interrupt/block"
 
 
 CTX_EXPRS = ["lw + 1", "prew", "accw", "q", "1 + 1", "throw(\"ctx\")", "nosuchvar", "[1, 2].len()", "this", "twov(1)",
@@ -199,6 +199,18 @@ class C10(SessimProp):
             for rd in st["rounds"]:
                 if rd.get("panic"):
                     return "panicked-before-abort", None
+        # An interrupt that was reported has been consumed: if the flag is still set, the first
+        # evaluation after :abort is cancelled by an interrupt nobody sent.  (An interrupt that arrived
+        # during the last step of a request that then completed is legitimately still pending: by design
+        # it cancels the next evaluation - such cases are skipped, the reference session has no such event.)
+        for st in tres["steps"][:pt]:
+            for rd in st["rounds"]:
+                if rd.get("flag_after") and rd.get("fired"):
+                    if rd.get("stopped_by_interrupt"):
+                        return "ok", ("flag-left-set", "C10:flag-left-set",
+                                      "a request was answered `interrupted` and the interrupt flag is still set afterwards: "
+                                      "after :abort the next evaluation is cancelled at its first step")
+                    return "interrupt-pending-after-completed-request(skipped)", None
         if len(tres["steps"]) < pt + len(case["probes"]) and not tres["dead"]:
             return "short", None
         tp = tres["steps"][pt:]
